@@ -136,7 +136,8 @@ func (g *gm) droppable(call *ast.CallExpr) bool {
 	if src == "cancel" && len(call.Args) == 0 { // `defer cancel()` of a context.WithTimeout
 		return true
 	}
-	for _, frag := range []string{".log.", ".Logger.", ".logger.", ".mu.Lock", ".mu.Unlock", ".mu.RLock", ".mu.RUnlock", ".Mutex.", ".RWMutex."} {
+	for _, frag := range []string{".log.", ".Logger.", ".logger.", ".mu.Lock", ".mu.Unlock", ".mu.RLock", ".mu.RUnlock", ".Mutex.", ".RWMutex.",
+		"Mu.Lock", "Mu.Unlock", "Mu.RLock", "Mu.RUnlock"} {
 		if strings.Contains(src, frag) {
 			return true
 		}
@@ -288,6 +289,12 @@ func (g *gm) call(c *ast.CallExpr) string {
 				return "(.len " + g.expr(c.Args[0]) + ")"
 			}
 		case "make":
+			// make(chan T[, n]): a channel is an opaque value (sends are effects, receives are outside the subset)
+			if len(c.Args) >= 1 {
+				if _, isChan := c.Args[0].(*ast.ChanType); isChan {
+					return "(.lit [(\"chan\", (.str " + gmStr(g.f.src(c.Args[0])) + "))])"
+				}
+			}
 			// make([]T, n[, cap]) : only the length matters
 			if len(c.Args) >= 1 {
 				if _, isArr := c.Args[0].(*ast.ArrayType); isArr {
@@ -749,6 +756,10 @@ func genGoMiniAll() []*leanFile {
 		[]string{cl + "message_set.go"},
 		map[string][]string{cl + "message_set.go": {"newMessageSetFromProto"}},
 		clConsts)})
+	out = append(out, &leanFile{name: "GoGroupSub", raw: genGoMini("GoGroupSub",
+		[]string{sv + "partition.go"},
+		map[string][]string{sv + "partition.go": {"partition.Subscribe", "partition.removeGroupSubscriber"}},
+		[]string{sv + "partition.go"})})
 	pr := "server/protocol/"
 	out = append(out, &leanFile{name: "GoEnvelope", raw: genGoMini("GoEnvelope",
 		[]string{pr + "envelope.go"},
